@@ -189,6 +189,9 @@ type Run struct {
 	OnRecv func(m *tpb.Message)
 	OnHRecv func(m *tpb.Message)
 	Dest func() *tpb.Message // receive destination factory (default: new(Message))
+	// streamDescOverride replaces the client-side stream descriptor (raw clients
+	// may claim other streaming flags than the method has).
+	streamDescOverride *grpc.StreamDesc
 }
 
 func (r *Run) rec(ev Event) {
@@ -412,6 +415,15 @@ func (s *Service) stream(stream grpc.ServerStream) (err error) {
 		r.OnHandler(ctx, r, stream)
 	}
 	r.runHandlerOps(ctx, stream)
+	if r.S.Ret.How == "recverr" {
+		// return the first receive error other than io.EOF, as generated handlers do
+		for _, ev := range r.Events() {
+			if ev.Who == "h" && ev.Op == "recv" && !ev.Call && ev.Err != nil && ev.Err != io.EOF {
+				return ev.Err
+			}
+		}
+		return nil
+	}
 	return r.S.Ret.Err(ctx)
 }
 
@@ -696,7 +708,11 @@ func (r *Run) execUnary(cc grpc.ClientConnInterface, ctx context.Context, opts [
 func (r *Run) execStream(cc grpc.ClientConnInterface, ctx context.Context, opts []grpc.CallOption) {
 	var st grpc.ClientStream
 	var err error
-	pan := guard(func() { st, err = cc.NewStream(ctx, r.S.Kind.StreamDesc(), r.S.Kind.Method(), opts...) })
+	sd := r.S.Kind.StreamDesc()
+	if r.streamDescOverride != nil {
+		sd = r.streamDescOverride
+	}
+	pan := guard(func() { st, err = cc.NewStream(ctx, sd, r.S.Kind.Method(), opts...) })
 	r.rec(Event{Who: "cs", Op: "newstream", Err: err, Pan: pan})
 	if err != nil || pan != "" || st == nil {
 		r.NewStreamErr = err
